@@ -8,6 +8,10 @@ CONSTANTS
   NodeCounts = {3}
   SimCounts = {3}
   DefaultConc = 16
+  MaxCalls = 1
+  HistClients = {}
+  HistOutcomes = {}
+  Design = "asks"
   BaseOutcomes = {"accept", "reject", "treject", "malformed"}
 INVARIANTS Emit
 CHECK_DEADLOCK FALSE
